@@ -8,7 +8,8 @@ CONSTANT Full
 I(n) == [t |-> "int", v |-> n]
 Sy(cs) == [t |-> "sym", cs |-> cs]
 Atoms == {[t |-> "bool", b |-> TRUE], [t |-> "bool", b |-> FALSE], I(0), I(-7), I(2147483647), I(-2147483647 - 1),
-          [t |-> "rat", n |-> 1, d |-> 2], [t |-> "rat", n |-> -3, d |-> 4], [t |-> "char", c |-> 97], [t |-> "char", c |-> 40],
+          [t |-> "rat", n |-> 1, d |-> 2], [t |-> "rat", n |-> -3, d |-> 4], [t |-> "rat", n |-> -2147483647 - 1, d |-> 3],
+          [t |-> "rat", n |-> 2147483647, d |-> 2147483646], [t |-> "char", c |-> 97], [t |-> "char", c |-> 40],
           Sy(<<97>>), Sy(<<43>>), Sy(<<45, 62, 120>>), QuoteSym, [t |-> "nil"], [t |-> "vec", xs |-> <<>>]}
 \* the symbol quote is an element like any other: (quote), (quote a b), (quote . a), (a quote b) are lists, not abbreviations
 FewAtoms == {[t |-> "bool", b |-> FALSE], I(-7), [t |-> "rat", n |-> 1, d |-> 2], QuoteSym, [t |-> "nil"]}
@@ -17,7 +18,10 @@ ListsOver(S, n, tails) == {ListOf(sq, tl) : sq \in Seqs(S, n) \ {<<>>}, tl \in t
 VecsOver(S, n) == {[t |-> "vec", xs |-> sq] : sq \in Seqs(S, n)}
 Level1 == Atoms \cup ListsOver(Atoms, 2, {[t |-> "nil"]} \cup (Atoms \ {[t |-> "nil"]})) \cup VecsOver(Atoms, 2)
 Small1 == FewAtoms \cup ListsOver(FewAtoms, 2, {[t |-> "nil"], I(-7)}) \cup VecsOver(FewAtoms, 2)
-Level2 == ListsOver(Small1, IF Full THEN 3 ELSE 2, {[t |-> "nil"], I(-7)}) \cup VecsOver(Small1, 2)
+\* (thorough: also every list of three elements over the atoms and their one-element lists / vectors)
+Small0 == FewAtoms \cup ListsOver(FewAtoms, 1, {[t |-> "nil"], I(-7)}) \cup VecsOver(FewAtoms, 1)
+Level2 == ListsOver(Small1, 2, {[t |-> "nil"], I(-7)}) \cup VecsOver(Small1, 2)
+          \cup (IF Full THEN ListsOver(Small0, 3, {[t |-> "nil"], I(-7)}) \cup VecsOver(Small0, 3) ELSE {})
 Universe == Level1 \cup Level2
 
 VARIABLES v, phase
